@@ -365,6 +365,7 @@ pub(crate) fn process_handler_blueprint(
     }
 
     HandlerSqeBlueprint::RequestClose => {
+      #[cfg(rzmq_verif)] crate::verif::uring::trace(1, fd as i64, 0);
       let mut entry = opcode::Close::new(types::Fd(fd)).build();
       let user_data = internal_ops.new_op_id(fd, InternalOpType::CloseFd, InternalOpPayload::None);
       entry = entry.user_data(user_data);
@@ -867,6 +868,7 @@ pub(crate) fn process_all_cqes(
           }
         }
         InternalOpType::CloseFd => {
+          #[cfg(rzmq_verif)] crate::verif::uring::trace(2, handler_fd as i64, cqe_result as i64);
           if cqe_result >= 0 {
             info!(
               "CQE Processor: Internal CloseFd op (ud:{}) for FD {} successful.",
